@@ -168,6 +168,13 @@ CLAIMED = {
             "A raising call has shown nothing to the encoder and not resized its table; a "
             "succeeding call calls it exactly once; the peer's HEADER_TABLE_SIZE reaches the "
             "encoder for every value and setting combination.", "7/C13"),
+    'C02': ("symbolic execution of header-block fragmentation with the peer's MAX_FRAME_SIZE and "
+            "the encoded block length as solver variables; of the frame-size limit after received "
+            "SETTINGS; of initiate_connection / close_connection; and of every public call from "
+            "every catalogue entry with the appended frames compared field by field",
+            "No frame payload exceeds M for all M in 2^14..2^24-1 and all block lengths up to 3M; "
+            "blocks are contiguous with END_HEADERS only on the last fragment; each successful "
+            "call appends exactly the frames it specifies.", "7/C02"),
 }
 
 NOT_YET = {}
